@@ -865,3 +865,12 @@ func (r *cnReplica) committedTree() (mkvs.ImmutableKeyValueTree, error) {
 	}
 	return mkvs.NewWithRoot(nil, ndb, roots[0]), nil
 }
+
+// estimate runs a raw transaction through gas estimation (simulation mode of the handlers).
+func (r *cnReplica) estimate(raw []byte) {
+	var st transaction.SignedTransaction
+	var t transaction.Transaction
+	if cbor.Unmarshal(raw, &st) == nil && cbor.Unmarshal(st.Blob, &t) == nil {
+		_, _ = r.srv.EstimateGas(st.Signature.PublicKey, &t)
+	}
+}
